@@ -112,6 +112,70 @@ def nearestNeighbors (order : List Rat → List Nat) (t : Tree O) (k : Nat) (px 
   let r ← knnNode order k px py t.root (List.replicate k none)
   pure (r.map fun c => c.map (·.2))
 
+/-- rtree.go `NearestNeighbors` with Go's signed `k int`: `make([]float64, k)` panics for k < 0
+("makeslice: len out of range"; rendered as `Fault.indexRange`), k = 0 yields the empty slice -/
+def nearestNeighborsInt (order : List Rat → List Nat) (t : Tree O) (k : Int) (px py : Rat) :
+    Except Fault (List (Option O)) :=
+  if k < 0 then throw Fault.indexRange else nearestNeighbors order t k.toNat px py
+
+/-! ### `sortEntries` / `pruneEntries` literally: two parallel slices and `sort.Sort`
+
+`sort.Sort` receives the `entrySlice` as a `sort.Interface`: it can read `Len()` and `Less(i, j)`
+(= `dists[i] < dists[j]`) and can change the data through `Swap(i, j)` only.  Whatever algorithm
+it runs is therefore a program `sorter : List Rat → List (Nat × Nat)` from the initial distances to
+a sequence of `Swap` calls.  `swapOrder` is the visiting order (`order` above) that such a program
+induces; `C12_sort_contract` (ProofsExt.lean) shows that it is a permutation of the indices, that the
+distances stay paired with their entries, and that `pruneEntriesLit ∘ sortEntriesLit` is `branches`. -/
+
+/-- `s[i], s[j] = s[j], s[i]` (Go panics when an index is out of range) -/
+def swapL {α : Type} (l : List α) (i j : Nat) : Except Fault (List α) :=
+  match l[i]?, l[j]? with
+  | some a, some b => pure ((l.set i b).set j a)
+  | _, _ => throw Fault.indexRange
+
+def swapsL {α : Type} (sw : List (Nat × Nat)) (l : List α) : Except Fault (List α) :=
+  sw.foldlM (fun l ij => swapL l ij.1 ij.2) l
+
+/-- rtree.go `entrySlice.Swap`: both slices -/
+def swapBoth {α : Type} (s : List α × List Rat) (ij : Nat × Nat) : Except Fault (List α × List Rat) := do
+  let e ← swapL s.1 ij.1 ij.2
+  let d ← swapL s.2 ij.1 ij.2
+  pure (e, d)
+
+/-- rtree.go `sortEntries` with `sort.Sort` = the swap program `sorter` -/
+def sortEntriesLit (sorter : List Rat → List (Nat × Nat)) (px py : Rat) (es : List (Entry O)) :
+    Except Fault (List (Entry O) × List Rat) :=
+  let ds := es.map fun e => minDist px py e.bb
+  (sorter ds).foldlM swapBoth (es, ds)
+
+/-- rtree.go `pruneEntries` on the sorted entries and their distances (same length, see
+`C12_sort_contract`) -/
+def pruneEntriesLit (px py : Rat) (es : List (Entry O)) (ds : List Rat) : List (Entry O) :=
+  match minMinMaxDist px py (es.map Entry.bb) with
+  | none => []
+  | some mmd => ((es.zip ds).filter fun p => decide (p.2 ≤ mmd)).map (·.1)
+
+/-- the visiting order induced by a swap program (the identity if the program leaves the range,
+where Go panics) -/
+def swapOrder (sorter : List Rat → List (Nat × Nat)) (ds : List Rat) : List Nat :=
+  match swapsL (sorter ds) (List.range ds.length) with
+  | .ok idx => idx
+  | .error _ => List.range ds.length
+
+/-- the swap program of Go's `insertionSort` (what `sort.Sort` runs for at most 12 elements):
+`for i := 1; i < n; i++ { for j := i; j > 0 && Less(j, j-1); j-- { Swap(j, j-1) } }` -/
+def insertionSwaps (ds : List Rat) : List (Nat × Nat) :=
+  let inner (st : List Rat × List (Nat × Nat)) (i : Nat) : List Rat × List (Nat × Nat) :=
+    (List.range i).foldl (fun (st : (List Rat × List (Nat × Nat)) × Bool) (c : Nat) =>
+      let j := i - c
+      if st.2 then
+        match st.1.1[j]?, st.1.1[j - 1]? with
+        | some a, some b =>
+          if a < b then (((st.1.1.set j b).set (j - 1) a, st.1.2 ++ [(j, j - 1)]), true) else (st.1, false)
+        | _, _ => (st.1, false)
+      else st) (st, true) |>.1
+  ((List.range ds.length).drop 1).foldl inner (ds, []) |>.2
+
 /-! ### histories with interleaved queries
 
 The model is functional: a query takes the tree and returns an answer; nothing it computes can
